@@ -14,7 +14,8 @@ PROPERTY = "C19"
 RULES = {
     "R1": "all multi-device records are frozen dataclasses whose fields have immutable types",
     "R2": "drop on detach: every function that stores Node._inputs / Node._outputs in a way that can lose a value reaches "
-    "_drop_sharding_for_value for the dropped values; the drop itself filters by identity and keeps values still attached",
+    "_drop_sharding_for_value for the dropped values; the drop itself filters by identity and keeps values still attached"
+    "  and visits every configuration of the node (no break/return in its loop)",
     "R3": "references are by identity: no record stores a tensor or configuration name; the serializer derives "
     "tensor_name / configuration_id from value.name / configuration.name",
     "R4": "invalid annotation requests are rejected without effect: shard, set_pipeline_stage, add_/remove_device_configuration "
